@@ -96,7 +96,11 @@ uint32_t IPSecAH::header_size() const {
 
 void IPSecAH::write_serialization(uint8_t* buffer, uint32_t total_sz) {
     if (inner_pdu()) {
-        next_header(Internals::pdu_flag_to_ip_type(inner_pdu()->pdu_type()));
+        // Keep the parsed/user provided value in front of an unrecognised payload
+        const uint32_t flag = Internals::pdu_flag_to_ip_type(inner_pdu()->pdu_type());
+        if (flag != 0xff) {
+            next_header(static_cast<uint8_t>(flag));
+        }
     }
     length(header_size() / sizeof(uint32_t) - 2);
     OutputMemoryStream output(buffer, total_sz);
